@@ -54,6 +54,7 @@ impl SF {
             let mut a = a.borrow_mut();
             a.var_bits.push(bits);
             a.var_nonzero.push(nonzero);
+            a.var_kind.push(if name.starts_with("ch") || name == "rod" || name == "h" { 1 } else if name.starts_with("rng") { 2 } else { 0 });
             let idx = a.var_vals.len() as u32;
             a.var_vals.push(val);
             a.var_names.push(name.to_string());
